@@ -32,6 +32,7 @@ func init() {
 var c02Exponents = []float64{-2, -1, -0.5, 0, 0.5, 1, 2, 3, 2.5}
 
 func runC02(c *fw.Ctx) {
+	deeperBounds(!c.Quick())
 	var shapes [][]int
 	if c.Quick() {
 		shapes = Shapes(0, 4, 3)
